@@ -142,6 +142,34 @@ def declare(spec):
     d('desc', lambda X, a, b: ZV(prelude.desc(tt(X, a), tt(X, b))))
     d('ec', lambda X, e, c: ZV(EC.make([e, c])))
 
+    def index_in(X, lst, x):
+        """Some position of x in the list, if it occurs (definitional Skolem term)."""
+        lst = deref(lst)
+        k = z3.Int(X.fresh_name('index_in'))
+        i = z3.Int('i_idx')
+        xt = lst.E.to_leaves(x)
+        hit = z3.And(*[a[i] == l for a, l in zip(lst.ats, xt)])
+        hitk = z3.And(*[a[k] == l for a, l in zip(lst.ats, xt)])
+        X.assume(forall([i], z3.Implies(z3.And(0 <= i, i < lst.n, hit),
+                                        z3.And(0 <= k, k < lst.n, hitk)),
+                        patterns=[lst.ats[0][i]]))
+        return ZV(k)
+    d('index_in', index_in)
+
+    def filter_map(which):
+        def fn(X, lst):
+            lst = deref(lst)
+            info = X.list_info.get(z3.simplify(lst.ats[0]).get_id()) or \
+                X.list_info.get(lst.ats[0].get_id()) or X.list_info.get('last_filter')
+            i = z3.Int('i_fm')
+            if info is None:
+                # the list was not produced by a filter on this path
+                return ZV(z3.Const(X.fresh_name('nomap'), z3.ArraySort(z3.IntSort(), z3.IntSort())))
+            return ZV(z3.Lambda([i], info[which](i)))
+        return fn
+    d('filter_src', filter_map('emb'))
+    d('filter_dst', filter_map('inv'))
+
     def nonempty(X, c):
         c = deref(c)
         arr = c.arr if isinstance(c, SetV) else c.dom
@@ -150,6 +178,15 @@ def declare(spec):
     d('ec_e', lambda X, x: ZV(EC.dt.ec_e(deref(x).t)))
     d('ec_c', lambda X, x: ZV(EC.dt.ec_c(deref(x).t)))
 
+    spec.ghost_decls['plog'] = TList(T.TCall())
+
+    def plog(X):
+        if 'plog' not in X.ghost:
+            spec.havoc_ghost(X, 'plog')
+        return X.ghost['plog']
+    d('plog', plog)
+    d('call_proc', lambda X, p, dt: ZV(T.call_term('proc', deref(p).t, T._coerce(dt, z3.RealSort()))))
+
     # processors are open code
     def proc_process(X, f, recv, args, kwargs, node):
         if f.kind != 'proc.process':
@@ -157,6 +194,8 @@ def declare(spec):
         dt = T._coerce(args[0], z3.RealSort())
         c = T.call_term('proc', deref(recv).t, dt)
         site = spec.site_config(X, node)
+        pl = plog(X)
+        X.ghost['plog'] = ListV(pl.E, pl.n + 1, [z3.Store(pl.ats[0], pl.n, c)])
         return (T.open_site(X, c, node, reenter=site.get('reenter', True),
                             raises=site.get('raises'), name='Processor.process'),)
     spec.open_handlers.append(proc_process)
@@ -282,35 +321,43 @@ def register(spec):
               'entity in self._entities and S in self._entities[entity]')
 
     # ---------------------------------------------------------- delete_entity
-    C(W + 'delete_entity', params=dict(P, entity=Ent, immediate=TBool), props=['C01', 'C05'],
-      requires=wfall,
-      modifies=['self._components', 'self._entities', 'self._dead_entities'],
+    C(W + 'delete_entity', params=dict(P, entity=Ent, immediate=TBool),
+      props=['C01', 'C02', 'C05'], requires=wfall,
+      modifies=['self._components', 'self._entities', 'self._dead_entities'] + DISP_STATE,
       ensures={
-          'wf': ("wf(self, 'W')", 'prop'),
+          'wf': ("wf(self)", 'prop'),
           'deferred-only-marks': (
-              'implies(not immediate, self._entities == old(self._entities) and '
-              'self._components == old(self._components) and '
+              'implies(not immediate, unchanged_except(self, "_dead_entities") and '
               'all((x in self._dead_entities) == (x in old(self._dead_entities) or x == entity) '
-              'for x in Ent))'),
+              'for x in Ent) and all(cnt(c) == old(cnt(c)) for c in Call))'),
           'immediate-removes-row': (
               'implies(immediate, not (entity in self._entities) and '
-              'all(implies(e != entity, (e in self._entities) == (e in old(self._entities)) and '
-              'all(' + ATT + ' == ' + OLD_ATT + ' and implies(' + ATT + ', '
-              'self._entities[e][t] == old(self._entities)[e][t]) for t in Type)) for e in Ent))'),
+              'not (entity in self._dead_entities) and '
+              'all(implies(e != entity, ' + ATT + ' == ' + OLD_ATT + ' and implies(' + ATT + ', '
+              'self._entities[e][t] == old(self._entities)[e][t])) for e in Ent for t in Type))'),
+          'processors-untouched': 'self._sorted_processors == old(self._sorted_processors) and '
+                                  'self._processors == old(self._processors)',
       },
       raises={'KeyError': {'only-unknown-immediate': 'immediate and not (entity in old(self._entities))',
-                           'unchanged': 'self._entities == old(self._entities)'}})
+                           'unchanged': 'unchanged_except(self, "")'},
+              '$OtherException': {'from-callback-only': 'immediate'}})
     spec.loop(W + 'delete_entity', 0, index='i', seq='types', invariants={
-        'table-unchanged': 'self._entities == old(self._entities) and '
-                           'self._dead_entities == old(self._dead_entities)',
-        'index-shrinks': (
-            'all((t in self._components and e in self._components[t]) == '
-            '(t in old(self._components) and e in old(self._components)[t] and '
-            'not (e == entity and t in old(self._entities)[entity] and pos(t) < i)) '
+        'wf': 'wf(self)',
+        'row-shrinks': (
+            'all(' + ATT + ' == (' + OLD_ATT + ' and not (e == entity and pos(t) < i)) and '
+            'implies(' + ATT + ', self._entities[e][t] == old(self._entities)[e][t]) '
             'for e in Ent for t in Type)'),
-        'no-new-index': 'all(implies(t in self._components, t in old(self._components)) for t in Type)',
-    }, havoc=['self._components'])
-
+        'types-are-the-old-row': 'all(implies(0 <= k and k < len(types), '
+                                 'types[k] in old(self._entities)[entity]) for k in Int)',
+        'marks': 'all(implies(x != entity, (x in self._dead_entities) == '
+                 '(x in old(self._dead_entities))) for x in Ent)',
+        'mark-dropped-with-row': 'implies(not (entity in self._entities), '
+                                 'not (entity in self._dead_entities))',
+        'processors-untouched': 'self._sorted_processors == old(self._sorted_processors) and '
+                                'self._processors == old(self._processors)',
+        'entity-known': 'entity in old(self._entities)',
+    }, havoc=['self._components', 'self._entities', 'self._dead_entities', 'self._events',
+              'self._handlers', 'self._event_queue', 'ghost:log', 'ghost:cnt'])
 
 # row `entity` lost exactly (entity, S); everything else as before
 def att_minus(ent, typ):
@@ -379,7 +426,10 @@ def register_mutators(spec):
         'exact-type-preferred': (
             'implies(entity in old(self._entities) and component_type in '
             'old(self._entities)[entity], S == component_type)'),
-        'pending-mark-untouched': 'self._dead_entities == old(self._dead_entities)',
+        'pending-mark-dropped-with-the-row': (
+            'all((x in self._dead_entities) == (x in old(self._dead_entities) and not '
+            '(x == entity and entity in old(self._entities) and not (entity in self._entities))) '
+            'for x in Ent)'),
         'processors-untouched': 'self._sorted_processors == old(self._sorted_processors) and '
                                 'self._processors == old(self._processors)',
         'unregistered': 'implies(%s and has_events(typeof(result)), '
@@ -392,9 +442,15 @@ def register_mutators(spec):
     ens.update(lifecycle('result', 'on_remove', 'entity', found))
     C(W + 'remove_component', params=dict(P, entity=Ent, component_type=TypeS),
       props=['C01', 'C02', 'C06'], requires=wfall + ['component_type != None'], returns=Comp,
-      modifies=['self._components', 'self._entities'] + DISP_STATE,
+      modifies=['self._components', 'self._entities', 'self._dead_entities'] + DISP_STATE,
       ghost_results={'S': ('local', 'subtype', TypeS)}, ensures=ens,
-      raises={'$OtherException': {'from-callback-only': found}})
+      raises={'$OtherException': {
+          'from-callback-only': found,
+          'wf': ("wf(self)", 'prop'),
+          'marks-only-shrink': 'all(implies(x in self._dead_entities, x in old(self._dead_entities)) '
+                               'for x in Ent)',
+          'processors-untouched': 'self._sorted_processors == old(self._sorted_processors) and '
+                                  'self._processors == old(self._processors)'}})
     walk_loop(spec, W + 'remove_component', 0, 'component_type',
               'entity in self._entities and S in self._entities[entity]',
               extra={
@@ -428,3 +484,294 @@ _register0 = register
 def register(spec):     # noqa: F811
     _register0(spec)
     register_mutators(spec)
+
+
+def register_lifecycle(spec):
+    C = spec.contract
+    wfall = ["wf(self)"]
+    P = dict(self=World)
+    ALLSTATE = ['self._components', 'self._entities', 'self._dead_entities'] + DISP_STATE
+    HAVOC = ['self._components', 'self._entities', 'self._dead_entities', 'self._events',
+             'self._handlers', 'self._event_queue', 'ghost:log', 'ghost:cnt']
+
+    # rows of pending entities go, every other row is as before
+    applied = ('all(' + ATT + ' == (' + OLD_ATT + ' and not (e in old(self._dead_entities))) and '
+               'implies(' + ATT + ', self._entities[e][t] == old(self._entities)[e][t]) '
+               'for e in Ent for t in Type)')
+    C(W + '_clear_dead_entities', params=P, props=['C01', 'C02', 'C05'], requires=wfall,
+      modifies=ALLSTATE,
+      ensures={
+          'wf': ("wf(self)", 'prop'),
+          'pending-rows-removed': applied,
+          'no-mark-left': 'all(not (x in self._dead_entities) for x in Ent)',
+          'processors-untouched': 'self._sorted_processors == old(self._sorted_processors) and '
+                                  'self._processors == old(self._processors)',
+      },
+      raises={
+          # only for an identifier that owned nothing when it was marked (test-suite
+          # behaviour); the mark is gone, so the next call does not fail on it again
+          'KeyError': {'wf': ("wf(self)", 'prop'),
+                       'only-never-existing': 'any(x in old(self._dead_entities) and '
+                                              'not (x in old(self._entities)) for x in Ent)',
+                       'mark-consumed': 'all(implies(x in self._dead_entities, '
+                                        'x in old(self._dead_entities)) for x in Ent)'},
+          '$OtherException': {'wf': ("wf(self)", 'prop'),
+                              'marks-only-shrink': 'all(implies(x in self._dead_entities, '
+                                                   'x in old(self._dead_entities)) for x in Ent)'}})
+    # marked entities always own something (wf clause M1 below), so KeyError is
+    # possible only for ids marked while unknown; `done` = marks already applied
+    spec.loop(W + '_clear_dead_entities', 0, invariants={
+        'wf': 'wf(self)',
+        'marks-shrink': 'all(implies(x in self._dead_entities, x in old(self._dead_entities)) '
+                        'for x in Ent)',
+        'applied-so-far': (
+            'all(' + ATT + ' == (' + OLD_ATT + ' and not (e in old(self._dead_entities) and '
+            'not (e in self._dead_entities))) and '
+            'implies(' + ATT + ', self._entities[e][t] == old(self._entities)[e][t]) '
+            'for e in Ent for t in Type)'),
+        'processors-untouched': 'self._sorted_processors == old(self._sorted_processors) and '
+                                'self._processors == old(self._processors)',
+    }, havoc=HAVOC, vars={'entity': Ent})
+    spec.loop(W + '_clear_dead_entities', 1, index='i', seq='types', invariants={
+        'wf': 'wf(self)',
+        'entity-popped': 'entity in old(self._dead_entities) and not (entity in self._dead_entities)'
+                         ' and entity in old(self._entities)',
+        'marks-shrink': 'all(implies(x in self._dead_entities, x in old(self._dead_entities)) '
+                        'for x in Ent)',
+        'types-are-the-old-row': 'all(implies(0 <= k and k < len(types), '
+                                 'types[k] in old(self._entities)[entity]) for k in Int)',
+        'row-shrinks': (
+            'all(' + ATT + ' == (' + OLD_ATT + ' and not (e in old(self._dead_entities) and '
+            'not (e in self._dead_entities) and not (e == entity and not (pos(t) < i)))) and '
+            'implies(' + ATT + ', self._entities[e][t] == old(self._entities)[e][t]) '
+            'for e in Ent for t in Type)'),
+        'processors-untouched': 'self._sorted_processors == old(self._sorted_processors) and '
+                                'self._processors == old(self._processors)',
+    }, havoc=HAVOC)
+
+    # ------------------------------------------------------------- entities
+    C(W + 'entities', params=P, props=['C01', 'C05'], requires=["wf(self, 'W')"],
+      ensures={
+          'only-living': 'all(implies(0 <= i and i < len(result), result[i] in self._entities and '
+                         'not (result[i] in self._dead_entities)) for i in Int)',
+          'all-living': 'all(implies(e in self._entities and not (e in self._dead_entities), '
+                        'any(0 <= i and i < len(result) and result[i] == e for i in Int)) '
+                        'for e in Ent)',
+          'each-once': 'all(implies(0 <= i and i < j and j < len(result), result[i] != result[j]) '
+                       'for i in Int for j in Int)',
+      })
+
+    # ------------------------------------------------------------- process
+    def deletes_first(X, short):
+        """C05: the pending deletions are applied before any processor runs."""
+        first_proc = None
+        clear_at = None
+        for n, ev in enumerate(X.events):
+            if ev[0] == 'open' and ev[1] == 'Processor.process' and first_proc is None:
+                first_proc = n
+            if ev[0] == 'call' and ev[1].endswith('._clear_dead_entities') and clear_at is None:
+                clear_at = n
+        ok = clear_at is not None and (first_proc is None or clear_at < first_proc)
+        X.oblige(short + ':deletes-before-processors', z3.BoolVal(ok), kind='order', role='prop',
+                 assume_after=False)
+    ran = ("len(plog()) == len(old(plog())) + len(self._sorted_processors) and "
+           "is_prefix(old(plog()), plog()) and "
+           "all(plog()[len(old(plog())) + j] == call_proc(self._sorted_processors[j], dt) "
+           "for j in range(len(self._sorted_processors)))")
+    c = C(W + 'process', params=dict(P, dt=TReal), props=['C05', 'C07'], requires=wfall,
+          modifies=ALLSTATE + ['self._dispatch_enabled', 'ghost:plog'],
+          open_effect=True,
+          ensures={'wf': ("wf(self)", 'prop'),
+                   'once-each-in-order': ran,
+                   'processor-list-untouched':
+                       'self._sorted_processors == old(self._sorted_processors) and '
+                       'self._processors == old(self._processors)'},
+          raises={'KeyError': {'wf': ("wf(self)", 'prop')},
+                  '$OtherException': {'wf': ("wf(self)", 'prop')}})
+    c.path_checks = [deletes_first]
+    spec.sites['World.process'] = {
+        'reenter': True,
+        'client_fields': ['_components', '_entities', '_dead_entities', '_events', '_handlers',
+                          '_event_queue', '_dispatch_enabled'],
+        'rely': [('processors-do-not-add-or-remove-processors-of-the-world-being-processed',
+                  'self._sorted_processors == old(self._sorted_processors) and '
+                  'self._processors == old(self._processors)')]}
+    spec.loop(W + 'process', 0, index='i', seq='procs', invariants={
+        'wf': 'wf(self)',
+        'list-untouched': 'self._sorted_processors == old(self._sorted_processors) and '
+                          'self._processors == old(self._processors)',
+        'ran-prefix': ("len(plog()) == len(old(plog())) + i and is_prefix(old(plog()), plog()) and "
+                       "all(plog()[len(old(plog())) + j] == call_proc(self._sorted_processors[j], dt) "
+                       "for j in range(i))"),
+    }, havoc=HAVOC + ['self._dispatch_enabled', 'ghost:plog', 'ghost:alive', 'ghost:dlog'])
+
+
+_register1 = register
+
+
+def register(spec):     # noqa: F811
+    _register1(spec)
+    register_lifecycle(spec)
+
+
+def register_processors(spec):
+    from . import bisect_spec
+    bisect_spec.register(spec)
+    C = spec.contract
+    wfall = ["wf(self)"]
+    P = dict(self=World)
+    PSTATE = ['self._sorted_processors', 'self._processors'] + DISP_STATE
+    SP = 'self._sorted_processors'
+    OSP = 'old(self._sorted_processors)'
+
+    def proc_cb(p, event):
+        return ("call_cb(class_attr(typeof(%s), ev_get(typeof(%s), '%s')), %s, pack(), kw_empty())"
+                % (p, p, event, p))
+
+    def proc_lifecycle(p, event, cond):
+        c = proc_cb(p, event)
+        relay = "qe('on_single_dispatch', pack('%s', %s), kw_empty())" % (event, p)
+        has = "(has_events(typeof(%s)) and ev_has(typeof(%s), '%s'))" % (p, p, event)
+        return {
+            event + '-once-when-enabled': (
+                "implies(%s and %s and old(self._dispatch_enabled), cnt(%s) == old(cnt(%s)) + 1)"
+                % (cond, has, c, c)),
+            event + '-postponed-not-lost': (
+                "implies(%s and %s and not old(self._dispatch_enabled), "
+                "len(self._event_queue) >= 1 and "
+                "self._event_queue[len(self._event_queue) - 1] == %s)" % (cond, has, relay)),
+            event + '-nothing-else-called': (
+                "all(implies(not (%s and %s and old(self._dispatch_enabled) and c == %s), "
+                "cnt(c) == old(cnt(c))) for c in Call)" % (cond, has, c)),
+        }
+
+    # ------------------------------------------------------ remove_processor
+    MATCH = 'U in old(self._processors)'
+    found = 'any(desc(processor_type, U) and %s for U in Type)' % MATCH
+    ens = {
+        'wf': ("wf(self)", 'prop'),
+        'nothing-to-remove': 'implies(not %s, result == None and %s == %s and '
+                             'self._processors == old(self._processors))' % (found, SP, OSP),
+        'removes-one-matching': (
+            'implies(%s, desc(processor_type, S) and S in old(self._processors) and '
+            'result == old(self._processors)[S] and not (S in self._processors) and '
+            'all(implies(t != S, (t in self._processors) == (t in old(self._processors)) and '
+            'implies(t in self._processors, self._processors[t] == old(self._processors)[t])) '
+            'for t in Type))' % found),
+        'exact-type-preferred': 'implies(processor_type in old(self._processors), S == processor_type)',
+        'gone-from-the-list': 'implies(%s, all(implies(0 <= i and i < len(%s), %s[i] != result) '
+                              'for i in Int))' % (found, SP, SP),
+        # list' is an order-preserving sublist of the old list (ghost maps src/dst) ...
+        'others-keep-their-order': (
+            'implies(%s, len(%s) <= len(%s) and '
+            'all(implies(0 <= i and i < len(%s), 0 <= src[i] and src[i] < len(%s) and '
+            '%s[i] == %s[src[i]]) for i in Int) and '
+            'all(implies(0 <= i and i < j and j < len(%s), src[i] < src[j]) for i in Int for j in Int))'
+            % (found, SP, OSP, SP, OSP, SP, OSP, SP)),
+        # ... that drops nothing but the removed processor
+        'only-the-removed-is-dropped': (
+            'implies(%s, all(implies(0 <= j and j < len(%s) and %s[j] != result, '
+            '0 <= dst[j] and dst[j] < len(%s) and src[dst[j]] == j) for j in Int))'
+            % (found, OSP, OSP, SP)),
+        'entities-untouched': 'self._entities == old(self._entities) and '
+                              'self._components == old(self._components) and '
+                              'self._dead_entities == old(self._dead_entities)',
+        'flag-untouched': 'self._dispatch_enabled == old(self._dispatch_enabled)',
+        'unregistered': 'implies(%s and has_events(typeof(result)), '
+                        'not (wref(result) in self._handlers))' % found,
+        'other-handlers-kept': 'all(implies(not (%s and r == wref(result)), '
+                               '(r in self._handlers) == (r in old(self._handlers))) for r in Ref)'
+                               % found,
+    }
+    ens.update(proc_lifecycle('result', 'on_remove', found))
+    C(W + 'remove_processor', params=dict(P, processor_type=TypeS), props=['C06', 'C07'],
+      requires=wfall + ['processor_type != None'], returns=Proc, modifies=PSTATE,
+      ghost_results={'S': ('local', 'subtype', TypeS),
+                     'src': ('expr', 'filter_src(self._sorted_processors)',
+                             TScalar(z3.ArraySort(z3.IntSort(), z3.IntSort()))),
+                     'dst': ('expr', 'filter_dst(self._sorted_processors)',
+                             TScalar(z3.ArraySort(z3.IntSort(), z3.IntSort())))},
+      ensures=ens,
+      raises={'AssertionError': {'not-a-processor-type': 'True'},
+              '$OtherException': {'from-callback-only': found, 'wf': ("wf(self)", 'prop')}})
+    walk_loop(spec, W + 'remove_processor', 0, 'processor_type', 'S in self._processors',
+              extra={'nothing-removed-yet': 'unchanged_except(self, "")',
+                     'counters-untouched': 'all(cnt(c) == old(cnt(c)) for c in Call)'})
+
+    # --------------------------------------------------------- get_processor
+    C(W + 'get_processor', params=dict(P, processor_type=TypeS), props=['C06', 'C07'],
+      requires=["wf(self, 'P')", 'processor_type != None'], returns=Proc,
+      ghost_results={'S': ('local', 'subtype', TypeS)},
+      ensures={
+          'found-is-registered-subtype': (
+              'implies(any(desc(processor_type, U) and U in self._processors for U in Type), '
+              'desc(processor_type, S) and S in self._processors and result == self._processors[S])'),
+          'exact-type-preferred': 'implies(processor_type in self._processors, '
+                                  'result == self._processors[processor_type])',
+          'none-iff-none': 'implies(all(not (desc(processor_type, U) and U in self._processors) '
+                           'for U in Type), result == None)',
+      })
+    walk_loop(spec, W + 'get_processor', 0, 'processor_type', 'S in self._processors')
+
+    C(W + 'processors', params=P, props=['C07'], requires=["wf(self, 'P')"],
+      ensures={'execution-order': 'len(result) == len(%s) and all(implies(0 <= i and i < len(result), '
+                                  'result[i] == %s[i]) for i in Int)' % (SP, SP)})
+
+    # --------------------------------------------------------- add_processor
+    ens = {
+        'wf': ("wf(self)", 'prop'),
+        'registered-under-its-type': 'typeof(processor) in self._processors and '
+                                     'self._processors[typeof(processor)] == processor',
+        'other-types-kept': 'all(implies(t != typeof(processor), (t in self._processors) == '
+                            '(t in old(self._processors)) and implies(t in self._processors, '
+                            'self._processors[t] == old(self._processors)[t])) for t in Type)',
+        'explicit-priority': 'implies(priority != None, processor.priority == priority)',
+        'default-priority-kept': 'implies(priority == None, processor.priority == old(processor.priority))',
+        'knows-its-world': 'processor.world == self',
+        'listed-once-at': 'let(p=apos, body=0 <= p and p < len(%s) and %s[p] == processor)' % (SP, SP),
+        # after every processor of lower or equal priority, before every higher one
+        'after-equal-priorities': 'all(implies(0 <= i and i < apos, %s[i].priority <= processor.priority) '
+                                  'for i in Int)' % SP,
+        'before-higher-priorities': 'all(implies(apos < i and i < len(%s), '
+                                    'processor.priority < %s[i].priority) for i in Int)' % (SP, SP),
+        'entities-untouched': 'self._entities == old(self._entities) and '
+                              'self._components == old(self._components) and '
+                              'self._dead_entities == old(self._dead_entities)',
+        'registered-as-handler': 'implies(has_events(typeof(processor)), wref(processor) in self._handlers)',
+    }
+    ens.update(proc_lifecycle('processor', 'on_add', 'True'))
+    # a replaced processor of the same exact type gets on_remove (remove_processor's
+    # contract): that call is the only other one
+    replaced = 'old(self._processors)[typeof(processor)]'
+    rcall = proc_cb(replaced, 'on_remove')
+    acall = proc_cb('processor', 'on_add')
+    was = '(typeof(processor) in old(self._processors))'
+    has_add = "(has_events(typeof(processor)) and ev_has(typeof(processor), 'on_add'))"
+    ens['on_add-once-when-enabled'] = (
+        "implies(%s and old(self._dispatch_enabled) and not (%s and %s == %s), "
+        "cnt(%s) == old(cnt(%s)) + 1)" % (has_add, was, rcall, acall, acall, acall))
+    ens['on_add-nothing-else-called'] = (
+        "all(implies(not (%s and old(self._dispatch_enabled) and c == %s) and "
+        "not (%s and c == %s), cnt(c) == old(cnt(c))) for c in Call)" % (has_add, acall, was, rcall))
+    ens['replaced-gets-on_remove'] = (
+        "implies(%s and has_events(typeof(%s)) and ev_has(typeof(%s), 'on_remove') and "
+        "old(self._dispatch_enabled) and %s != %s, cnt(%s) == old(cnt(%s)) + 1)"
+        % (was, replaced, replaced, rcall, acall, rcall, rcall))
+    ens['replaced-not-listed'] = (
+        "implies(%s and %s != processor, all(implies(0 <= i and i < len(%s), %s[i] != %s) "
+        "for i in Int))" % (was, replaced, SP, SP, replaced))
+    C(W + 'add_processor', params=dict(P, processor=Proc, priority=TOpt(TInt)), props=['C07'],
+      requires=wfall + ['processor != None', 'alive(processor)'],
+      modifies=PSTATE + ['processor.priority', 'processor.world'],
+      ghost_results={'apos': ('expr', 'index_in(self._sorted_processors, processor)', TInt)},
+      ensures=ens,
+      raises={'AssertionError': {'bad-arguments': 'True'},
+              '$OtherException': {'from-callback-only': 'True'}})
+
+
+_register2 = register
+
+
+def register(spec):     # noqa: F811
+    _register2(spec)
+    register_processors(spec)
